@@ -3,7 +3,10 @@
 // CornerTable::Create, over exhaustive small lists and biased random larger lists.
 #include "common/ct_check.h"
 #include "common/runner.h"
+#include "common/geo.h"
 #include "draco/mesh/corner_table.h"
+#include "draco/mesh/mesh_attribute_corner_table.h"
+#include "draco/mesh/mesh_misc_functions.h"
 
 using namespace draco;
 using vf::Reporter;
@@ -88,6 +91,82 @@ static void Random(Rng &r, Reporter &rep, vf::CtScratch &s, bool thorough) {
   }
 }
 
+// Corner tables derived from meshes (position attribute / all attributes) and the per-attribute
+// corner table with seams.
+static void MeshTables(Rng &r, Reporter &rep, vf::CtScratch &s) {
+  vf::GenParams gp;
+  gp.size_class = r.below(3) == 0 ? 3 : 2;
+  gp.narrow_int32 = true;
+  vf::Geo g = vf::GenGeo(r, gp);
+  if (g.faces.empty()) { rep.held(0, false); return; }
+  std::unique_ptr<Mesh> mesh = vf::ToMesh(g);
+  const std::string desc = g.family + " np=" + std::to_string(g.npoints) + " nf=" + std::to_string(g.faces.size()) + " na=" + std::to_string(g.atts.size());
+  const PointAttribute *pos = mesh->GetNamedAttribute(GeometryAttribute::POSITION);
+  for (int mode = 0; mode < 2; ++mode) {
+    std::unique_ptr<CornerTable> ct = mode == 0 ? CreateCornerTableFromPositionAttribute(mesh.get()) : CreateCornerTableFromAllAttributes(mesh.get());
+    if (!ct) { rep.violation(std::string("mesh-table/create-returned-null/") + (mode ? "all-attributes" : "position"), desc); return; }
+    FaceList faces;
+    for (auto &f : g.faces) faces.push_back(mode == 0 ? std::array<uint32_t, 3>{pos->mapped_index(PointIndex(f[0])).value(), pos->mapped_index(PointIndex(f[1])).value(), pos->mapped_index(PointIndex(f[2])).value()} : f);
+    std::string detail;
+    const char *bad = vf::CheckCornerTable(*ct, faces, s, &detail);
+    if (bad) { rep.violation(std::string(bad) + "/mesh-table-" + (mode ? "all-attributes" : "position"), desc + " :: " + detail); return; }
+    rep.count(mode ? "mesh_tables/all-attributes" : "mesh_tables/position");
+    if (mode == 1) continue;
+    // attribute corner tables on top of the position table
+    for (int a = 0; a < mesh->num_attributes(); ++a) {
+      const PointAttribute *att = mesh->attribute(a);
+      if (att == pos) continue;
+      MeshAttributeCornerTable act;
+      if (!act.InitFromAttribute(mesh.get(), ct.get(), att)) { rep.violation("attribute-table/init-failed", desc); return; }
+      const int nc = ct->num_corners();
+      bool any_seam = false;
+      for (int ci = 0; ci < nc; ++ci) {
+        const CornerIndex c(ci);
+        if (ct->IsDegenerated(ct->Face(c))) continue;
+        const CornerIndex o = ct->Opposite(c);
+        const bool seam = act.IsCornerOppositeToSeamEdge(c);
+        if (o == kInvalidCornerIndex) { if (!seam) { rep.violation("attribute-table/boundary-edge-not-marked-as-seam", desc + " corner " + std::to_string(ci)); return; } continue; }
+        if (seam != act.IsCornerOppositeToSeamEdge(o)) { rep.violation("attribute-table/seam-not-symmetric", desc + " corner " + std::to_string(ci)); return; }
+        if (seam && act.Opposite(c) != kInvalidCornerIndex) { rep.violation("attribute-table/opposite-across-seam", desc); return; }
+        if (!seam && act.Opposite(c) != o) { rep.violation("attribute-table/opposite-differs-without-seam", desc); return; }
+        // a seam is exactly an edge whose end points carry different attribute values on the two sides
+        const AttributeValueIndex a0 = att->mapped_index(mesh->CornerToPointId(ct->Next(c))), a1 = att->mapped_index(mesh->CornerToPointId(ct->Previous(c)));
+        const AttributeValueIndex b0 = att->mapped_index(mesh->CornerToPointId(ct->Previous(o))), b1 = att->mapped_index(mesh->CornerToPointId(ct->Next(o)));
+        const bool differs = a0 != b0 || a1 != b1;
+        if (differs != seam) { rep.violation(std::string("attribute-table/") + (seam ? "seam-without-value-difference" : "value-difference-without-seam"), desc + " att " + std::to_string(a) + " corner " + std::to_string(ci)); return; }
+        any_seam |= seam;
+      }
+      // all corners mapped to one attribute vertex carry one attribute value; fans are reachable
+      std::vector<int64_t> value_of(act.num_vertices(), -1);
+      for (int ci = 0; ci < nc; ++ci) {
+        const CornerIndex c(ci);
+        if (ct->IsDegenerated(ct->Face(c))) continue;
+        const VertexIndex v = act.Vertex(c);
+        if (v == kInvalidVertexIndex || v.value() >= static_cast<uint32_t>(act.num_vertices())) { rep.violation("attribute-table/vertex-out-of-range", desc); return; }
+        const int64_t val = att->mapped_index(mesh->CornerToPointId(c)).value();
+        if (value_of[v.value()] < 0) value_of[v.value()] = val;
+        else if (value_of[v.value()] != val) { rep.violation("attribute-table/one-attribute-vertex-two-values", desc + " att " + std::to_string(a)); return; }
+        // (MeshAttributeCornerTable::VertexParent returns the attribute *entry* the vertex was created for)
+        if (act.VertexParent(v).value() != static_cast<uint32_t>(val)) { rep.violation("attribute-table/vertex-parent-is-not-the-attribute-entry", desc); return; }
+      }
+      for (int vi = 0; vi < act.num_vertices(); ++vi) {
+        CornerIndex lm = act.LeftMostCorner(VertexIndex(vi));
+        if (lm == kInvalidCornerIndex) continue;
+        int steps = 0;
+        CornerIndex c = lm;
+        while (c != kInvalidCornerIndex) {
+          if (++steps > nc) { rep.violation("attribute-table/fan-walk-does-not-terminate", desc); return; }
+          if (act.Vertex(c) != VertexIndex(vi)) { rep.violation("attribute-table/fan-leaves-vertex", desc); return; }
+          c = act.SwingRight(c);
+          if (c == lm) break;
+        }
+      }
+      rep.count(any_seam ? "attribute_tables/with-seams" : "attribute_tables/without-seams");
+    }
+  }
+  rep.held(vf::HashBytes(g.faces.data(), g.faces.size() * 12, 77), true);
+}
+
 int main(int argc, char **argv) {
   return vf::RunHarness(argc, argv, "C13", [](int64_t k, Rng &r, Reporter &rep) {
     static vf::CtScratch s;
@@ -126,6 +205,6 @@ int main(int argc, char **argv) {
       return;
     }
     if (thorough) k -= kPairs;
-    Random(r, rep, s, thorough);
+    if (k % 3 == 2) MeshTables(r, rep, s); else Random(r, rep, s, thorough);
   });
 }
